@@ -193,11 +193,35 @@ fn run_sybil_listings(ctx: &RunCtx) -> Report {
         p.delay = rng.range(0, 100) * MS;
         rawnet.add(&sim, p);
     }
+    // *stale aliases* (1 run in 2, own random stream): some live peers are also listed, by others, under an id they
+    // no longer have (a node that restarted or re-keyed on its address): the lookup hears (old id, address)
+    // and then gets the answer from that address under the current id
+    let mut arng = Rng::new(crate::rng::key(ctx.seed, &[crate::rng::tag("c11-aliases")]));
+    let mut aliases: Vec<(Id, SocketAddrV4)> = vec![];
+    if arng.chance(1, 2) {
+        for i in 0..n {
+            if arng.chance(1, 4) {
+                let (_, addr) = rawnet.contact(i);
+                let mut old = arng.id();
+                if arng.chance(1, 2) {
+                    let keep = arng.usize(1, 18);
+                    old[..keep].copy_from_slice(&target[..keep]);
+                }
+                if arng.chance(1, 3) {
+                    old = krpc::bep42_id(*addr.ip(), old);
+                }
+                aliases.push((old, addr));
+            }
+        }
+        report.probe("stale_alias_listings", aliases.len() as u64);
+    }
     for i in 0..n {
         let mut knows: Vec<usize> = (0..n).filter(|x| *x != i).collect();
         rng.shuffle(&mut knows);
         knows.truncate(rng.usize(1, n.min(14)));
         let mut extra: Vec<(Id, SocketAddrV4)> = ghosts.iter().filter(|_| rng.chance(1, 3)).cloned().collect();
+        let my_addr = rawnet.contact(i).1;
+        extra.extend(aliases.iter().filter(|a| a.1 != my_addr).filter(|_| arng.chance(1, 2)).cloned());
         rng.shuffle(&mut extra);
         rawnet.with_peer(i, |p| {
             p.knows = knows;
@@ -226,7 +250,7 @@ fn run_sybil_listings(ctx: &RunCtx) -> Report {
     let lt = crate::props::c07::lookup_trace(&sim, node, &target, t0, t1);
     // (answers are attributed to this lookup by (address, transaction id): the node may run a lookup of its
     // own re-keyed id at the same time, whose answers are not this lookup's)
-    let told: std::collections::BTreeSet<(Id, SocketAddrV4)> = lt.known.iter().map(|(a, id)| (*id, *a)).collect();
+    let told: std::collections::BTreeSet<(Id, SocketAddrV4)> = lt.told_pairs.clone();
     if let Some(Outcome::Nodes(nodes)) = sim.take_outcome(op) {
         let got: Vec<(Id, SocketAddrV4)> = nodes.iter().map(|x| (*x.id().as_bytes(), x.address())).collect();
         let what = format!("peers={n} ghosts={} warm={warm} told={} reported={}", ghosts.len(), told.len(), got.len());
@@ -256,6 +280,11 @@ fn run_sybil_listings(ctx: &RunCtx) -> Report {
                 if got.contains(c) {
                     continue;
                 }
+                // a stale alias of a live peer's address: the peer's current entry (possibly from the node's own
+                // table, which no answer shows) holds that IP's place
+                if aliases.contains(c) {
+                    continue;
+                }
                 let before_last = match got.last() {
                     Some(last) if got.len() >= 20 => {
                         let mut pair = vec![*c, *last];
@@ -265,7 +294,10 @@ fn run_sybil_listings(ctx: &RunCtx) -> Report {
                     _ => true,
                 };
                 let twin = got.iter().any(|g| g.0 == c.0 && secure(g) == secure(c));
-                let same_ip = got.iter().any(|g| g.1.ip() == c.1.ip());
+                // (the accumulator admits one insecure node per IP and no two secure ones sharing a 21-bit prefix:
+                // whichever entry of an IP it heard first may keep a later, closer one out - whether that first
+                // entry made it into the reported 20 or not)
+                let same_ip = got.iter().any(|g| g.1.ip() == c.1.ip()) || told.iter().any(|t| t != c && t.1.ip() == c.1.ip());
                 if before_last && !twin && !same_ip {
                     if ctx.verbose {
                         println!("target {}", krpc::hex(&target));
